@@ -100,6 +100,20 @@ func hclPos1() hcl.Pos { return hcl.Pos{Byte: 0, Line: 1, Column: 1} }
 //verif:stub-if jsonparse encoding/json.Unmarshal
 func verifStubJSONUnmarshal(data []byte, v any) error {
 	if nondet_bool("token-rejected-by-encoding-json") {
+		if _, isString := v.(*string); isString {
+			// a string token can only be rejected as malformed JSON text
+			// encoding/json reports a syntax error "after reading Offset bytes": 1..len(data)
+			// for a non-empty text (len(data) when the text just ends too early)
+			// (a solver variable, not a case split: every offset is decided in one query)
+			off := nondet_i64("syntax-error-offset")
+			if len(data) > 0 {
+				verif_assume(off >= 1)
+			} else {
+				verif_assume(off >= 0)
+			}
+			verif_assume(off <= int64(len(data)))
+			return &stdjson.SyntaxError{Offset: off}
+		}
 		return verifErrJSON
 	}
 	if n, ok := v.(*stdjson.Number); ok {
